@@ -171,6 +171,8 @@ def _div(a, b):
         return a / b
     if not _ENG.branch(b != 0):
         raise ZeroDivisionError('float division by zero')
+    if a.eq(b) or z3.simplify(a).eq(z3.simplify(b)):
+        return z3.RealVal(1)        # x / x with x != 0 on this path
     return a / b
 
 
@@ -360,6 +362,7 @@ class Engine:
         self.vars = {}               # name -> z3 const
         self.nice = {}               # name -> (lo, hi)
         self.ufs = {}
+        self.uf_apps = []            # (name, arg terms, application term)
         self.obligations = []        # dicts
         self.observations = []       # (name, SymNum|float)
         self.stub_calls = {}
@@ -539,7 +542,9 @@ class Engine:
         f = self.ufs.get(key)
         if f is None:
             f = self.ufs[key] = z3.Function(name, *([z3.RealSort()] * (len(zs) + 1)))
-        return f(*zs)
+        app = f(*zs)
+        self.uf_apps.append((name, zs, app))
+        return app
 
     def uf(self, name, *args):
         zs = []
@@ -669,26 +674,18 @@ class Engine:
                 vals[n] = _rat_to_float(mv)
                 exact[n] = str(mv)
         ufs = {}
-        for (name, ar), f in self.ufs.items():
+        seen = set()
+        for name, zs, app in self.uf_apps:
             try:
-                fi = m[f]
-            except z3.Z3Exception:
-                fi = None
-            tab = []
-            els = 0.0
-            if fi is not None and isinstance(fi, z3.FuncInterp):
-                for k in range(fi.num_entries()):
-                    e = fi.entry(k)
-                    try:
-                        tab.append([[_rat_to_float(e.arg_value(j)) for j in range(ar)],
-                                    _rat_to_float(e.value())])
-                    except ValueError:
-                        pass
-                try:
-                    els = _rat_to_float(z3.simplify(fi.else_value()))
-                except (ValueError, z3.Z3Exception):
-                    els = None
-            ufs[name] = dict(arity=ar, table=tab, default=els)
+                args = [_rat_to_float(m.eval(z_, model_completion=True)) for z_ in zs]
+                val = _rat_to_float(m.eval(app, model_completion=True))
+            except (ValueError, z3.Z3Exception):
+                continue
+            key = (name, tuple(args))
+            if key in seen:
+                continue
+            seen.add(key)
+            ufs.setdefault(name, dict(arity=len(zs), table=[], default=None))['table'].append([args, val])
         # also record the value of each uf application that occurs in the path
         return dict(values=vals, exact=exact, ufs=ufs, choices=[list(c) for c in self.choices])
 
